@@ -6,26 +6,52 @@ import Rtcp.Proofs.ReadLemmas
 
 namespace Rtcp.Proofs
 open Rtcp Rtcp.Impl Rtcp.Spec
+open Rtcp.Proofs.Read
 
 /-! ## `check_packet::<P>` for every declared type and minimum size ≥ 4 (C08, C19) -/
 
 theorem checkPacket_ok_iff (min : Nat) (pt : UInt8) (bs : Bytes) (h4 : 4 ≤ min) :
     checkPacket min pt bs = .ok () ↔ WellFramed min pt bs := by
-  sorry
+  rw [checkPacket_eval min pt bs h4, wellFramed_iff]
+  repeat' split
+  all_goals simp_all
+  all_goals omega
 
 theorem checkPacket_no_panic (min : Nat) (pt : UInt8) (bs : Bytes) (h4 : 4 ≤ min) :
     checkPacket min pt bs ≠ .panic := by
-  sorry
+  rw [checkPacket_eval min pt bs h4]
+  repeat' split
+  all_goals simp
+
+theorem shr6_ne2 (b : UInt8) (h : ¬ b.toNat / 64 = 2) : b >>> 6 ≠ 2 := by
+  intro e
+  have := shr6 b
+  rw [e] at this
+  exact h this.symm
 
 /-- C18: every error of the framing check is accurate -/
 theorem checkPacket_err_truthful (min : Nat) (pt : UInt8) (bs : Bytes) (h4 : 4 ≤ min) (e : ParseError)
     (h : checkPacket min pt bs = .err e) : ErrorTruthful bs pt e := by
-  sorry
+  rw [checkPacket_eval min pt bs h4] at h
+  repeat' split at h
+  all_goals simp only [R.err.injEq, reduceCtorEq] at h
+  all_goals subst h
+  all_goals simp only [ErrorTruthful]
+  · assumption
+  · rename_i h1 h2
+    refine ⟨by omega, ?_, ?_⟩
+    · rw [shr6]; rfl
+    · exact shr6_ne2 _ h2
+  · rename_i h1 h2 h3
+    exact ⟨by omega, trivial, trivial, h3⟩
+  · assumption
+  · assumption
+  · assumption
 
 /-- C18: shorter than the minimum ⇒ truncated with exactly that minimum and the real length -/
 theorem checkPacket_short (min : Nat) (pt : UInt8) (bs : Bytes) (h : bs.length < min) :
     checkPacket min pt bs = .err (.truncated min bs.length) := by
-  sorry
+  simp [checkPacket, h]
 
 /-- C18: version 2, right type, but a length field that disagrees ⇒ truncated / too large with
     exactly the header length and the real length -/
@@ -34,9 +60,24 @@ theorem checkPacket_length_mismatch (min : Nat) (pt : UInt8) (bs : Bytes) (h4 : 
     checkPacket min pt bs =
       .err (if bs.length < lengthField bs then .truncated (lengthField bs) bs.length
             else .tooLarge (lengthField bs) bs.length) := by
-  sorry
+  rw [checkPacket_eval min pt bs h4]
+  have h1 : ¬ bs.length < min := by omega
+  simp only [h1, hv, ht, if_false, ne_eq, not_true_eq_false]
+  by_cases h3 : bs.length < lengthField bs
+  · simp [h3]
+  · have : bs.length > lengthField bs := by omega
+    simp [h3, this]
 
 /-! ## header accessors on any well-framed packet (C08) -/
+
+theorem header_range (bs : Bytes) (h : 4 ≤ bs.length) :
+    version (range bs 0 4) = version bs ∧ ptype (range bs 0 4) = ptype bs ∧
+    count (range bs 0 4) = count bs ∧ lengthField (range bs 0 4) = lengthField bs ∧
+    (range bs 0 4).length = 4 := by
+  have e := range4 bs 0 (by omega)
+  simp only [Nat.zero_add] at e
+  rw [e]
+  simp [version, ptype, count, lengthField]
 
 theorem header_accessors {ε : Type} (min : Nat) (pt : UInt8) (bs : Bytes) (h4 : 4 ≤ min)
     (h : WellFramed min pt bs) :
@@ -44,68 +85,283 @@ theorem header_accessors {ε : Type} (min : Nat) (pt : UInt8) (bs : Bytes) (h4 :
     (hCount bs : R ε UInt8) = .ok (count bs).toUInt8 ∧ (hLength bs : R ε Nat) = .ok bs.length ∧
     (parsePadding bs : R ε (Option UInt8)) = .ok (paddingOf bs) ∧
     (∀ p, paddingOf bs = some p → p ≠ 0) := by
-  sorry
+  have _ := h4
+  rw [wellFramed_iff] at h
+  obtain ⟨hm, hl4, hv, ht, hl, hp⟩ := h
+  obtain ⟨rv, rt, rc, rl, rn⟩ := header_range bs hl4
+  have hs : (headerData bs : R ε Bytes) = .ok (range bs 0 4) := slice_ok bs 0 4 ⟨by omega, hl4⟩
+  refine ⟨?_, ?_, ?_, ?_, parsePadding_ok bs hl4 hl, ?_⟩
+  · simp only [hVersion, hs, R.ok_bind, parseVersion_ok _ (show 1 ≤ (range bs 0 4).length by omega)]
+    congr 1
+    apply UInt8.toNat_inj.mp
+    rw [shr6]
+    exact rv.trans hv
+  · simp only [hType, hs, R.ok_bind, parsePacketType_ok _ (show 2 ≤ (range bs 0 4).length by omega), rt, ht]
+  · simp only [hCount, hs, R.ok_bind, parseCount_ok _ (show 1 ≤ (range bs 0 4).length by omega), rc]
+  · simp only [hLength, hs, R.ok_bind, parseLength_ok _ (show 4 ≤ (range bs 0 4).length by omega), rl, hl]
+  · intro p hpp
+    unfold paddingOf at hpp
+    split at hpp
+    · rename_i hb
+      simp only [Option.some.injEq] at hpp
+      subst hpp
+      exact hp hb
+    · cases hpp
+
+/-! ## generic shape of a parser's outcome -/
+
+/-- the outcome of a parser: accepted (returning the input) exactly under `P`, otherwise an error
+    satisfying `T` -/
+def Outcome (x : R ParseError Bytes) (bs : Bytes) (P : Prop) (T : ParseError → Prop) : Prop :=
+  (x = .ok bs ∧ P) ∨ (∃ e, x = .err e ∧ T e ∧ ¬ P)
+
+theorem Outcome.ok_iff {x : R ParseError Bytes} {bs : Bytes} {P : Prop} {T : ParseError → Prop}
+    (h : Outcome x bs P T) (v : Bytes) : x = .ok v ↔ v = bs ∧ P := by
+  rcases h with ⟨hx, hp⟩ | ⟨e, hx, _, hp⟩
+  · subst hx
+    constructor
+    · intro h; simp only [R.ok.injEq] at h; exact ⟨h.symm, hp⟩
+    · rintro ⟨rfl, _⟩; rfl
+  · subst hx
+    constructor
+    · intro h; cases h
+    · rintro ⟨_, h⟩; exact absurd h hp
+
+theorem Outcome.no_panic {x : R ParseError Bytes} {bs : Bytes} {P : Prop} {T : ParseError → Prop}
+    (h : Outcome x bs P T) : x ≠ .panic := by
+  rcases h with ⟨hx, _⟩ | ⟨e, hx, _, _⟩ <;> subst hx <;> intro h <;> cases h
+
+theorem Outcome.err {x : R ParseError Bytes} {bs : Bytes} {P : Prop} {T : ParseError → Prop}
+    (h : Outcome x bs P T) (e : ParseError) (he : x = .err e) : T e := by
+  rcases h with ⟨hx, _⟩ | ⟨e', hx, ht, _⟩
+  · rw [hx] at he; cases he
+  · rw [hx] at he; cases he; exact ht
+
+theorem check_cases (min : Nat) (pt : UInt8) (bs : Bytes) (h4 : 4 ≤ min) :
+    (checkPacket min pt bs = .ok () ∧ WellFramed min pt bs) ∨
+    (∃ e, checkPacket min pt bs = .err e ∧ ErrorTruthful bs pt e ∧ ¬ WellFramed min pt bs) := by
+  cases h : checkPacket min pt bs with
+  | ok u => exact .inl ⟨rfl, (checkPacket_ok_iff min pt bs h4).mp h⟩
+  | err e =>
+    refine .inr ⟨e, rfl, checkPacket_err_truthful min pt bs h4 e h, ?_⟩
+    intro hw
+    rw [(checkPacket_ok_iff min pt bs h4).mpr hw] at h
+    cases h
+  | panic => exact absurd h (checkPacket_no_panic min pt bs h4)
+
+/-! ### SR / RR -/
+
+theorem sr_outcome (bs : Bytes) :
+    Outcome (Sr.parse bs) bs (WellFramed 28 200 bs ∧ 28 + 24 * count bs ≤ bs.length)
+      (ErrorTruthful bs 200) := by
+  unfold Sr.parse
+  rcases check_cases 28 200 bs (by omega) with ⟨hc, hw⟩ | ⟨e, hc, ht, hnw⟩
+  · have hf := (wellFramed_iff 28 200 bs).mp hw
+    rw [hc]
+    simp only [R.ok_bind, parseCount_ok bs (by omega), count_toUInt8_toNat]
+    split
+    · refine .inr ⟨_, rfl, ?_, ?_⟩
+      · simp only [ErrorTruthful]; assumption
+      · rintro ⟨_, h⟩; omega
+    · exact .inl ⟨rfl, hw, by omega⟩
+  · rw [hc]
+    exact .inr ⟨e, rfl, ht, fun h => hnw h.1⟩
+
+theorem rr_outcome (bs : Bytes) :
+    Outcome (Rr.parse bs) bs (WellFramed 8 201 bs ∧ 8 + 24 * count bs ≤ bs.length)
+      (ErrorTruthful bs 201) := by
+  unfold Rr.parse
+  rcases check_cases 8 201 bs (by omega) with ⟨hc, hw⟩ | ⟨e, hc, ht, hnw⟩
+  · have hf := (wellFramed_iff 8 201 bs).mp hw
+    rw [hc]
+    simp only [R.ok_bind, parseCount_ok bs (by omega), count_toUInt8_toNat]
+    split
+    · refine .inr ⟨_, rfl, ?_, ?_⟩
+      · simp only [ErrorTruthful]; assumption
+      · rintro ⟨_, h⟩; omega
+    · exact .inl ⟨rfl, hw, by omega⟩
+  · rw [hc]
+    exact .inr ⟨e, rfl, ht, fun h => hnw h.1⟩
+
+/-! ### BYE -/
+
+theorem bye_outcome (bs : Bytes) :
+    Outcome (Bye.parse bs) bs (WellFramed 4 203 bs ∧ 4 + 4 * count bs ≤ bs.length ∧
+      (4 + 4 * count bs < bs.length → 4 + 4 * count bs + 1 + u8At bs (4 + 4 * count bs) ≤ bs.length))
+      (ErrorTruthful bs 203) := by
+  unfold Bye.parse
+  rcases check_cases 4 203 bs (by omega) with ⟨hc, hw⟩ | ⟨e, hc, ht, hnw⟩
+  · have hf := (wellFramed_iff 4 203 bs).mp hw
+    rw [hc]
+    simp only [R.ok_bind, parseCount_ok bs (by omega), count_toUInt8_toNat]
+    split
+    · refine .inr ⟨_, rfl, ?_, ?_⟩
+      · simp only [ErrorTruthful]; omega
+      · rintro ⟨_, h, _⟩; omega
+    · split
+      · rename_i h1 h2
+        rw [idx_ok bs _ h2]
+        simp only [R.ok_bind]
+        have hu : (bs.getD (4 + 4 * count bs) 0).toNat = u8At bs (4 + 4 * count bs) := rfl
+        rw [hu]
+        split
+        · refine .inr ⟨_, rfl, ?_, ?_⟩
+          · simp only [ErrorTruthful]; omega
+          · rintro ⟨_, _, h⟩; have := h h2; omega
+        · exact .inl ⟨rfl, hw, by omega, fun _ => by omega⟩
+      · exact .inl ⟨rfl, hw, by omega, fun h => by omega⟩
+  · rw [hc]
+    exact .inr ⟨e, rfl, ht, fun h => hnw h.1⟩
+
+/-! ### APP / feedback / third-party: framing, then room for the announced padding -/
+
+theorem custom_outcome (pt : UInt8) (min : Nat) (h4 : 4 ≤ min) (bs : Bytes) :
+    Outcome (Custom.parse pt min bs) bs (WellFramed min pt bs ∧ min + padLen bs ≤ bs.length)
+      (ErrorTruthful bs pt) := by
+  unfold Custom.parse
+  rcases check_cases min pt bs h4 with ⟨hc, hw⟩ | ⟨e, hc, ht, hnw⟩
+  · have hf := (wellFramed_iff min pt bs).mp hw
+    rw [hc]
+    simp only [R.ok_bind, parsePadding_ok bs hf.2.1 hf.2.2.2.2.1]
+    unfold padLen
+    cases hp : paddingOf bs with
+    | none =>
+      simp only [Option.getD_none]
+      exact .inl ⟨rfl, hw, by simp; omega⟩
+    | some p =>
+      simp only [Option.getD_some]
+      split
+      · refine .inr ⟨_, rfl, ?_, ?_⟩
+        · simp only [ErrorTruthful]; assumption
+        · rintro ⟨_, h⟩; omega
+      · exact .inl ⟨rfl, hw, by omega⟩
+  · rw [hc]
+    exact .inr ⟨e, rfl, ht, fun h => hnw h.1⟩
+
+theorem app_eq_custom (bs : Bytes) : App.parse bs = Custom.parse 204 12 bs := rfl
+theorem fb_eq_custom (k : FbKind) (bs : Bytes) : Fb.parse k bs = Custom.parse k.pt 12 bs := rfl
+
+/-! ### Unknown -/
+
+theorem unknown_outcome (bs : Bytes) :
+    Outcome (Unknown.parse bs) bs (UnknownFramed bs)
+      (fun e => ErrorTruthful bs 0 e ∧ (∀ a r, e ≠ .packetTypeMismatch a r)) := by
+  unfold Unknown.parse
+  rw [unknownFramed_iff]
+  by_cases h1 : bs.length < 4
+  · simp only [h1, if_true]
+    refine .inr ⟨_, rfl, ⟨?_, ?_⟩, ?_⟩
+    · simp only [ErrorTruthful]; assumption
+    · intro a r h; cases h
+    · rintro ⟨h, _⟩; omega
+  · have hlen : 4 ≤ bs.length := by omega
+    simp only [h1, if_false, parseVersion_ok bs (by omega), R.ok_bind, bne2, shr6,
+      parseLength_ok bs hlen]
+    have hv : (bs.getD 0 0).toNat / 64 = version bs := rfl
+    rw [hv]
+    by_cases h2 : version bs = 2
+    · simp only [h2, ne_eq, not_true_eq_false, decide_false, if_false, Bool.false_eq_true]
+      split
+      · refine .inr ⟨_, rfl, ⟨?_, ?_⟩, ?_⟩
+        · simp only [ErrorTruthful]; assumption
+        · intro a r h; cases h
+        · rintro ⟨_, _, h⟩; omega
+      · split
+        · refine .inr ⟨_, rfl, ⟨?_, ?_⟩, ?_⟩
+          · simp only [ErrorTruthful]; assumption
+          · intro a r h; cases h
+          · rintro ⟨_, _, h⟩; omega
+        · exact .inl ⟨rfl, hlen, trivial, by omega⟩
+    · simp only [h2, ne_eq, not_false_eq_true, decide_true, if_true]
+      refine .inr ⟨_, rfl, ⟨?_, ?_⟩, ?_⟩
+      · simp only [ErrorTruthful]
+        refine ⟨by omega, ?_, shr6_ne2 _ h2⟩
+        rw [shr6]; rfl
+      · intro a r h; cases h
+      · rintro ⟨_, h, _⟩; exact h
+
+/-! ### report block -/
+
+theorem rb_outcome (bs : Bytes) :
+    Outcome (ReportBlock.parse bs) bs (bs.length = 24)
+      (fun e => e = (if bs.length < 24 then .truncated 24 bs.length else .tooLarge 24 bs.length) ∧
+        bs.length ≠ 24) := by
+  unfold ReportBlock.parse
+  by_cases h1 : bs.length < 24
+  · simp only [h1, if_true]
+    exact .inr ⟨_, rfl, ⟨rfl, by omega⟩, by omega⟩
+  · by_cases h2 : bs.length > 24
+    · simp only [h1, h2, if_false, if_true]
+      exact .inr ⟨_, rfl, ⟨rfl, by omega⟩, by omega⟩
+    · simp only [h1, h2, if_false]
+      exact .inl ⟨rfl, by omega⟩
 
 /-! ## typed parsers: accepted ⇔ framed and body large enough (C08); the view is the input (C09) -/
 
 theorem sr_parse_ok_iff (bs v : Bytes) :
-    Sr.parse bs = .ok v ↔ v = bs ∧ WellFramed 28 200 bs ∧ 28 + 24 * count bs ≤ bs.length := by
-  sorry
+    Sr.parse bs = .ok v ↔ v = bs ∧ WellFramed 28 200 bs ∧ 28 + 24 * count bs ≤ bs.length :=
+  (sr_outcome bs).ok_iff v
 
 theorem rr_parse_ok_iff (bs v : Bytes) :
-    Rr.parse bs = .ok v ↔ v = bs ∧ WellFramed 8 201 bs ∧ 8 + 24 * count bs ≤ bs.length := by
-  sorry
+    Rr.parse bs = .ok v ↔ v = bs ∧ WellFramed 8 201 bs ∧ 8 + 24 * count bs ≤ bs.length :=
+  (rr_outcome bs).ok_iff v
 
 theorem bye_parse_ok_iff (bs v : Bytes) :
     Bye.parse bs = .ok v ↔ v = bs ∧ WellFramed 4 203 bs ∧ 4 + 4 * count bs ≤ bs.length ∧
-      (4 + 4 * count bs < bs.length → 4 + 4 * count bs + 1 + u8At bs (4 + 4 * count bs) ≤ bs.length) := by
-  sorry
+      (4 + 4 * count bs < bs.length → 4 + 4 * count bs + 1 + u8At bs (4 + 4 * count bs) ≤ bs.length) :=
+  (bye_outcome bs).ok_iff v
 
 theorem app_parse_ok_iff (bs v : Bytes) :
     App.parse bs = .ok v ↔ v = bs ∧ WellFramed 12 204 bs ∧ 12 + padLen bs ≤ bs.length := by
-  sorry
+  rw [app_eq_custom]
+  exact (custom_outcome 204 12 (by omega) bs).ok_iff v
 
 theorem fb_parse_ok_iff (k : FbKind) (bs v : Bytes) :
     Fb.parse k bs = .ok v ↔ v = bs ∧ WellFramed 12 k.pt bs ∧ 12 + padLen bs ≤ bs.length := by
-  sorry
+  rw [fb_eq_custom]
+  exact (custom_outcome k.pt 12 (by omega) bs).ok_iff v
 
 theorem unknown_parse_ok_iff (bs v : Bytes) :
-    Unknown.parse bs = .ok v ↔ v = bs ∧ UnknownFramed bs := by
-  sorry
+    Unknown.parse bs = .ok v ↔ v = bs ∧ UnknownFramed bs :=
+  (unknown_outcome bs).ok_iff v
 
 theorem custom_parse_ok_iff (pt : UInt8) (min : Nat) (h4 : 4 ≤ min) (bs v : Bytes) :
-    Custom.parse pt min bs = .ok v ↔ v = bs ∧ WellFramed min pt bs ∧ min + padLen bs ≤ bs.length := by
-  sorry
+    Custom.parse pt min bs = .ok v ↔ v = bs ∧ WellFramed min pt bs ∧ min + padLen bs ≤ bs.length :=
+  (custom_outcome pt min h4 bs).ok_iff v
 
-theorem rb_parse_ok_iff (bs v : Bytes) : ReportBlock.parse bs = .ok v ↔ v = bs ∧ bs.length = 24 := by
-  sorry
+theorem rb_parse_ok_iff (bs v : Bytes) : ReportBlock.parse bs = .ok v ↔ v = bs ∧ bs.length = 24 :=
+  (rb_outcome bs).ok_iff v
 
 /-! ## no parser panics, whatever the bytes (C01) -/
 
 theorem parsers_no_panic (bs : Bytes) :
     Sr.parse bs ≠ .panic ∧ Rr.parse bs ≠ .panic ∧ Bye.parse bs ≠ .panic ∧ App.parse bs ≠ .panic ∧
     Fb.parse .transport bs ≠ .panic ∧ Fb.parse .payload bs ≠ .panic ∧ Unknown.parse bs ≠ .panic ∧
-    ReportBlock.parse bs ≠ .panic := by
-  sorry
+    ReportBlock.parse bs ≠ .panic :=
+  ⟨(sr_outcome bs).no_panic, (rr_outcome bs).no_panic, (bye_outcome bs).no_panic,
+   (custom_outcome 204 12 (by omega) bs).no_panic,
+   (custom_outcome FbKind.transport.pt 12 (by omega) bs).no_panic,
+   (custom_outcome FbKind.payload.pt 12 (by omega) bs).no_panic,
+   (unknown_outcome bs).no_panic, (rb_outcome bs).no_panic⟩
 
 /-! ## errors are truthful (C18) -/
 
-theorem sr_err_truthful (bs : Bytes) (e : ParseError) (h : Sr.parse bs = .err e) : ErrorTruthful bs 200 e := by
-  sorry
-theorem rr_err_truthful (bs : Bytes) (e : ParseError) (h : Rr.parse bs = .err e) : ErrorTruthful bs 201 e := by
-  sorry
-theorem bye_err_truthful (bs : Bytes) (e : ParseError) (h : Bye.parse bs = .err e) : ErrorTruthful bs 203 e := by
-  sorry
-theorem app_err_truthful (bs : Bytes) (e : ParseError) (h : App.parse bs = .err e) : ErrorTruthful bs 204 e := by
-  sorry
+theorem sr_err_truthful (bs : Bytes) (e : ParseError) (h : Sr.parse bs = .err e) : ErrorTruthful bs 200 e :=
+  (sr_outcome bs).err e h
+theorem rr_err_truthful (bs : Bytes) (e : ParseError) (h : Rr.parse bs = .err e) : ErrorTruthful bs 201 e :=
+  (rr_outcome bs).err e h
+theorem bye_err_truthful (bs : Bytes) (e : ParseError) (h : Bye.parse bs = .err e) : ErrorTruthful bs 203 e :=
+  (bye_outcome bs).err e h
+theorem app_err_truthful (bs : Bytes) (e : ParseError) (h : App.parse bs = .err e) : ErrorTruthful bs 204 e :=
+  (custom_outcome 204 12 (by omega) bs).err e h
 theorem fb_err_truthful (k : FbKind) (bs : Bytes) (e : ParseError) (h : Fb.parse k bs = .err e) :
-    ErrorTruthful bs k.pt e := by
-  sorry
+    ErrorTruthful bs k.pt e :=
+  (custom_outcome k.pt 12 (by omega) bs).err e h
 theorem unknown_err_truthful (bs : Bytes) (e : ParseError) (h : Unknown.parse bs = .err e) :
-    ErrorTruthful bs 0 e ∧ (∀ a r, e ≠ .packetTypeMismatch a r) := by
-  sorry
+    ErrorTruthful bs 0 e ∧ (∀ a r, e ≠ .packetTypeMismatch a r) :=
+  (unknown_outcome bs).err e h
 theorem rb_err_truthful (bs : Bytes) (e : ParseError) (h : ReportBlock.parse bs = .err e) :
-    e = (if bs.length < 24 then .truncated 24 bs.length else .tooLarge 24 bs.length) ∧ bs.length ≠ 24 := by
-  sorry
+    e = (if bs.length < 24 then .truncated 24 bs.length else .tooLarge 24 bs.length) ∧ bs.length ≠ 24 :=
+  (rb_outcome bs).err e h
 
 end Rtcp.Proofs
